@@ -175,3 +175,30 @@ func VerifC10TimerFirstUse() {
 	verifrt.Assert("c10.first-use.every-recorded-value-in-snapshot-once", verifrt.And(n == 2, verifrt.And(n1 == 1, n2 == 1)))
 	verifrt.Reach("c10.first-use.end")
 }
+
+// VerifC10StopwatchWallStep: the clock hands out readings with a monotonic part; the wall clock
+// is stepped by an arbitrary number of seconds between Start and Stop.  The recorded interval
+// is the elapsed (monotonic) time, as time.Time.Sub computes it.
+func VerifC10StopwatchWallStep() {
+	saved := globalNow
+	defer func() { globalNow = saved }()
+	var readings []time.Time
+	var shift int64
+	globalNow = func() time.Time {
+		t := verifrt.ShiftWall(time.Now(), shift)
+		readings = append(readings, t)
+		return t
+	}
+	rec := &vReporter{}
+	root := newRootScope(ScopeOptions{Reporter: rec, OmitCardinalityMetrics: true, registryShardCount: 1}, 0)
+	sw := root.Timer("t").Start()
+	shift = verifrt.Int64("wall-step-seconds")
+	verifrt.Assume(verifrt.And(shift > -(1<<20), shift < 1<<20))
+	sw.Stop()
+	verifrt.Assert("c10.wallstep.two-clock-readings", len(readings) == 2)
+	verifrt.Assert("c10.wallstep.one-delivery", len(rec.calls) == 1)
+	if len(readings) == 2 && len(rec.calls) == 1 {
+		verifrt.Assert("c10.wallstep.records-elapsed-time-not-wall-difference", rec.calls[0].i == int64(readings[1].Sub(readings[0])))
+	}
+	verifrt.Reach("c10.wallstep.end")
+}
